@@ -49,3 +49,18 @@ Fixpoint allowed_levels (allowed : Z) (items : list item) (deleted : list Z) : l
       let new := Z.min allowed (snd it) in
       (it, allowed) :: allowed_levels (if py_mem Z.eqb (fst it) deleted then new else new + 1) t deleted
   end.
+
+(* "Under a removed page": tracking, while scanning, the smallest level among removed pages whose subtree
+   is still open (None = no open removed page).  A page is a descendant of a removed page exactly when
+   that smallest level is below its own level. *)
+Fixpoint under_removed (open : option Z) (items : list item) (deleted : list Z) : list (item * bool) :=
+  match items with
+  | [] => []
+  | it :: t =>
+      let under := match open with Some a => a <? snd it | None => false end in
+      let still := match open with Some a => if a <? snd it then Some a else None | None => None end in
+      let open' := if py_mem Z.eqb (fst it) deleted
+                   then Some (match still with Some a => Z.min a (snd it) | None => snd it end)
+                   else still in
+      (it, under) :: under_removed open' t deleted
+  end.
